@@ -17,9 +17,12 @@ Definition P_refine : parallel_glue :=
   {| p_serial_when := rd_serial_when; p_max_workers := rd_max_workers; p_gather := rd_gather;
      p_serial_filters_none := rd_serial_filters_none; p_parallel_filters_none := rd_parallel_filters_none |}.
 
-(* from_storage keeps every result: list(executor.map(...)) / a generator over all frames *)
-Definition P_storage : parallel_glue :=
-  {| p_serial_when := fs_serial_when; p_max_workers := fs_max_workers; p_gather := fs_gather;
+(* from_storage keeps every result: list(executor.map(...)) / a generator over all frames.
+   `progress`: truthiness of the documented `progress` argument (None and False are falsy); the generated
+   facts say how the parallel branch gathers in either case *)
+Definition P_storage (progress : bool) : parallel_glue :=
+  {| p_serial_when := fs_serial_when; p_max_workers := fs_max_workers;
+     p_gather := if progress then fs_gather_progress else fs_gather_noprogress;
      p_serial_filters_none := false; p_parallel_filters_none := false |}.
 
 (* a usable num_processes argument: a positive integer, or "auto" on a machine with at least one cpu *)
@@ -29,14 +32,19 @@ Definition usable (np : nproc) (ncpu : nat) : Prop :=
 Lemma usable_valid_refine np ncpu : usable np ncpu -> valid_nproc P_refine np ncpu.
 Proof. destruct np as [n|]; simpl; intros H; right; exact H. Qed.
 
-Lemma usable_valid_storage np ncpu : usable np ncpu -> valid_nproc P_storage np ncpu.
+Lemma usable_valid_storage progress np ncpu : usable np ncpu -> valid_nproc (P_storage progress) np ncpu.
 Proof. destruct np as [n|]; simpl; intros H; right; exact H. Qed.
+
+(* both settings of `progress` gather by submission index *)
+Lemma storage_gathers_by_index progress : p_gather (P_storage progress) = GatherByIndex.
+Proof. destruct progress; reflexivity. Qed.
 
 (* the serial branch is taken iff num_processes == 1 *)
 Lemma serial_iff_one np :
-  (is_serial P_refine np = true <-> np = NPInt 1) /\ (is_serial P_storage np = true <-> np = NPInt 1).
+  (is_serial P_refine np = true <-> np = NPInt 1) /\
+  (forall progress, is_serial (P_storage progress) np = true <-> np = NPInt 1).
 Proof.
-  destruct np as [n|]; simpl; (split; split; intros H; try discriminate H).
+  destruct np as [n|]; simpl; (split; [|intros progress]; split; intros H; try discriminate H).
   - apply Nat.eqb_eq in H. subst. reflexivity.
   - inversion H. reflexivity.
   - apply Nat.eqb_eq in H. subst. reflexivity.
@@ -46,8 +54,8 @@ Qed.
 (* max_workers = None if num_processes == "auto" else num_processes *)
 Lemma workers_rule np ncpu :
   workers P_refine np ncpu = match np with NPAuto => ncpu | NPInt n => n end /\
-  workers P_storage np ncpu = match np with NPAuto => ncpu | NPInt n => n end.
-Proof. split; reflexivity. Qed.
+  (forall progress, workers (P_storage progress) np ncpu = match np with NPAuto => ncpu | NPInt n => n end).
+Proof. split; [|intros progress]; reflexivity. Qed.
 
 (* both branches iterate over the same argument, in its order *)
 Lemma iterate_same_argument :
@@ -106,9 +114,9 @@ Section Storage.
      the frame raised) gathered by the branch selected by np; then the first exception in frame order
      propagates (iteration of the generator / of executor.map's result iterator), then
      cls(emulsions, times = storage.times) *)
-  Definition from_storage_np (user : kwdict value) (np : nproc) (ncpu : nat) (sigma : list nat)
+  Definition from_storage_np (user : kwdict value) (progress : bool) (np : nproc) (ncpu : nat) (sigma : list nat)
              (storage : list (field * Q)) : outcome (res (failure exn) (tc emulsion)) :=
-    match mapped (fun _ => false) P_storage
+    match mapped (fun _ => false) (P_storage progress)
                  (locate (offline_options value parse G O_serial user))
                  (locate (offline_options value parse G O_parallel user))
                  np ncpu sigma (map fst storage) with
@@ -126,20 +134,21 @@ Section Storage.
   Proof. reflexivity. Qed.
 
   (* whatever the process count and the schedule, the result is the serial one of Model/Online.v *)
-  Theorem from_storage_par_eq_ser user np ncpu sigma storage :
+  Theorem from_storage_par_eq_ser user progress np ncpu sigma storage :
     usable np ncpu ->
-    from_storage_np user np ncpu sigma storage
+    from_storage_np user progress np ncpu sigma storage
     = Done (from_storage value parse field emulsion exn locate G O_serial user storage).
   Proof.
     intros Hu. unfold from_storage_np.
     change (offline_options value parse G O_parallel user) with (offline_options value parse G O_serial user).
-    rewrite mapped_par_eq_ser; [| reflexivity | reflexivity | apply usable_valid_storage; exact Hu].
+    rewrite mapped_par_eq_ser;
+      [| apply storage_gathers_by_index | reflexivity | apply usable_valid_storage; exact Hu].
     simpl. rewrite map_res_id_map. reflexivity.
   Qed.
 
-  Corollary from_storage_independent user np1 np2 ncpu1 ncpu2 sigma1 sigma2 storage :
+  Corollary from_storage_independent user progress1 progress2 np1 np2 ncpu1 ncpu2 sigma1 sigma2 storage :
     usable np1 ncpu1 -> usable np2 ncpu2 ->
-    from_storage_np user np1 ncpu1 sigma1 storage = from_storage_np user np2 ncpu2 sigma2 storage.
+    from_storage_np user progress1 np1 ncpu1 sigma1 storage = from_storage_np user progress2 np2 ncpu2 sigma2 storage.
   Proof. intros H1 H2. rewrite !from_storage_par_eq_ser by assumption. reflexivity. Qed.
 End Storage.
 
